@@ -179,6 +179,8 @@ func c12HasNext(v bool, useNil bool) *bool {
 type c12Exec struct {
 	n      int // payloads
 	reject bool
+	cancelAt int                // >0: the request context is cancelled while the cancelAt-th payload is being produced
+	cancel   context.CancelFunc // (the payload is still returned: the resolvers had finished)
 	yield  bool // producing a payload takes time: any other goroutine (a ticker's) may run before each one
 	inc    bool // incremental delivery shape: initial payload {"i":0}, then labelled payloads, hasNext true on all but the last
 	spaced bool // payload data carries insignificant white space incl. a line break (as graphql.MarshalAny / MarshalMap emit through json.Encoder)
@@ -201,6 +203,9 @@ func (e *c12Exec) DispatchOperation(ctx context.Context, rc *graphql.OperationCo
 			return nil
 		}
 		k++
+		if e.cancelAt == k && e.cancel != nil {
+			e.cancel()
+		}
 		if !zzsym.Symbolic() {
 			time.Sleep(3 * time.Millisecond) // natively: give the 1ms keep-alive ticker a chance to fire between payloads
 		}
@@ -343,4 +348,32 @@ func Harness_C12_multipartDo() {
 	}
 	zzsym.Assert(strings.HasPrefix(w.hdr.Get("Content-Type"), "multipart/mixed"), "the stream is served as multipart/mixed")
 	zzsym.Reach("c12.multipartdo")
+}
+
+// Harness_C05_streams: the streaming HTTP transports (SSE with keep-alive,
+// multipart/mixed with its aggregator ticker) serving 1..2 payloads while the
+// request context is cancelled at an arbitrary payload (never / while the
+// k-th payload is produced) and the timers tick at any scheduling point:
+// Do returns, and afterwards no goroutine the transport started is alive.
+func Harness_C05_streams() {
+	sse := zzsym.Choice("transport", 2) == 0
+	ex := &c12Exec{n: 1 + zzsym.Choice("payloads", zzsym.Param("maxp", 2)), inc: !sse, yield: true}
+	ex.cancelAt = zzsym.Choice("cancelAt", ex.n+1)
+	ctx, cancel := context.WithCancel(context.Background())
+	ex.cancel = cancel
+	// (unordered uses of the writer are found by the race check; its calls are no extra scheduling points here)
+	w := &c12Writer{hdr: http.Header{}}
+	r := (&http.Request{Method: "POST", Header: http.Header{}, URL: &url.URL{Path: "/"}, Body: io.NopCloser(strings.NewReader(`{"query":"{ x }"}`))}).WithContext(ctx)
+	r.Header.Set("Content-Type", "application/json")
+	if sse {
+		r.Header.Set("Accept", "text/event-stream")
+		SSE{KeepAlivePingInterval: time.Millisecond}.Do(w, r, ex)
+	} else {
+		r.Header.Set("Accept", "multipart/mixed")
+		MultipartMixed{}.Do(w, r, ex)
+	}
+	cancel() // the request has ended: net/http cancels its context
+	zzsym.Assert(zzsym.Quiesce() == 0, "no goroutine started by the transport outlives the request")
+	zzsym.Assert(!w.overlap, "the response writer is never entered by two goroutines at once")
+	zzsym.Reach("c05.streams")
 }
